@@ -319,6 +319,9 @@ type vEnv struct {
 	// what the block verification callbacks saw in this call
 	verifiedOK, verifiedPreOK     bool
 	verifiedHash, verifiedPreHash vhash
+	cached                        []*vPayload
+	cls, preMissing               int
+	preAnswerOwed                 bool
 }
 
 // kf1: carve-out of known finding KF-1 (DESIGN §7): the proposal of the current height and
